@@ -47,8 +47,8 @@ chk('C03', 'model_checking',
     'bounded symbolic execution of LLVM IR (lsx, z3) + native ASan/UBSan replay', 'DESIGN.md §3 C03')
 chk('C04', 'model_checking',
     'Bounded symbolic execution over EVERY byte string of each length in the bound (all bytes symbolic - stronger than blobs from an encoder): whenever the real 2.x from_blob accepts it, '
-    'to_blob of the result reproduces the payload byte for byte (the one boolean byte may be normalised to 0/1).',
-    'Trusted: clang lowering, lsx + runtime models, z3; identity zlib framing. Payloads longer than the bound are outside; the setter half is covered by C06 when claimed.',
+    'to_blob of the result reproduces the payload byte for byte (the one boolean byte may be normalised to 0/1). Setter half: every per-field setter of djinterop::track that rewrites a blob (set_loop_at, set_hot_cue_at, set_main_cue, set_average_loudness, set_key, set_sample_rate, set_sample_count, plus set_title / set_bpm as controls) runs over a 2.x track whose stored blobs are foreign (10 loops / 10 hot cues with symbolic fields and labels, two grids, trailing bytes): blobs it does not own stay unchanged field for field, inside its own blob only its field differs (entry count, other entries, trailing data kept).',
+    'Trusted: clang lowering, lsx + runtime models, z3; identity zlib framing. Payloads longer than the bound are outside; the setter half runs over the key/value sqlite3 model (as C06); whole-list setters replace their list by definition.',
     'bounded symbolic execution of LLVM IR (lsx, z3) + native replay', 'DESIGN.md §3 C04')
 chk('C06', 'model_checking',
     'Both schema generations, one inductive step per setter (25 setters incl. per-slot cue/loop setters at slots 0 and 7; whole-list setters over a longer stored list): from a track created from an arbitrary snapshot plus a second track, '
@@ -79,9 +79,9 @@ chk('C14', 'model_checking',
     'Schema 1.x operations: see DESIGN.md (covered only if listed in the evidence). Four listed known findings (2.x two-statement setters). Counterexamples are not replayed against a real SQLite.',
     'symbolic execution of LLVM IR (lsx, z3) with solver-chosen fault position over an abstract sqlite3 model', 'DESIGN.md §3 C14')
 chk('C16', 'model_checking',
-    'Symbolic execution of every public observing operation of the schema-2.x implementation (50 operations of track, crate and database) over an abstract sqlite3 model whose SELECTs answer arbitrary rows '
+    'Symbolic execution of every public observing operation of both generations (2.x: 50 operations of track, crate and database; 1.x: the same op table over engine_*_impl) over an abstract sqlite3 model whose SELECTs answer arbitrary rows '
     '(exactly one row, and 0..1 rows): on no path may any statement other than a read be prepared. Statement text is taken from the concrete bytes passed to sqlite3_prepare_v2, so dynamically built SQL is covered.',
-    'Trusted: clang lowering, lsx, lsx/models_sqlite.py, z3. verify() and loading are outside this check (file opening is looked at under C13); schema 1.x operations: see DESIGN.md.',
+    'Also: loading itself (load_database) and database_exists() over the abstract sqlite3 + stat() model of C13 for every stored version triple and file-system state, to the point where the connection is closed again, and verify() over the catalog model of C17: nothing but reads and ATTACH / DETACH may be prepared or passed to sqlite3_exec; a PRAGMA counts as a read only if it is one of the documented pure queries. Trusted: clang lowering, lsx, lsx/models_sqlite.py, checks/catalog.py, z3. Effects inside SQLite of a read statement are outside.',
     'symbolic execution of LLVM IR (lsx, z3) over an abstract sqlite3 model', 'DESIGN.md §3 C16')
 chk('C18', 'model_checking',
     'Symbolic execution of the real track_table::add/get/update/remove/exists and all ~45 per-column getter/setter pairs together with the real sqlite_modern_cpp binders over a key/value model of the sqlite3 C API: '
